@@ -1,8 +1,17 @@
 import CanvasModel.Driver
 import CanvasModel.C01
+import CanvasModel.C02
+import CanvasModel.C02.Verdict
+import CanvasModel.C02.Trace
+import CanvasModel.C02.Endpoints
 import CanvasGen.SweepF
 open Canvas
 def handle : List String → Option String
   | "L1" :: name :: args => GenF.dispatchSweep name args
+  | "SCOL" :: rest => Canvas.C02.handleSCol rest
+  | "SMRG" :: rest => Canvas.C02.handleSMrg rest
+  | "SETTLE" :: rest => Canvas.C02.handleSettle rest
+  | "STRACE" :: rest => Canvas.C02.handleTrace rest
+  | "EPTS" :: rest => Canvas.C02.handleEpts rest
   | ts => Canvas.C01.handle ts
 def main : IO Unit := runDriver handle
